@@ -73,7 +73,13 @@ type scheduler struct {
 	fires       int
 	maxFires    int
 	eagerTimers bool
-	atomicPts   bool
+	// delayBounded: switches where a goroutine blocks or ends follow a fixed
+	// round-robin order (next enabled goroutine after the current one); choosing
+	// another one costs one unit of the same budget as a preemption.  Cheaper
+	// than free choice at blocking points; the explored set is "all schedules
+	// within <= budget deviations from round-robin".
+	delayBounded bool
+	atomicPts    bool
 	timers      []*timerObj
 	abort       interface{}
 	dead        bool
@@ -114,6 +120,9 @@ func newScheduler(ex *Exec) *scheduler {
 	if v, ok := ex.params["sched_timers_eager"]; ok {
 		s.eagerTimers = v != 0
 	}
+	if v, ok := ex.params["sched_delay_bounded"]; ok {
+		s.delayBounded = v != 0
+	}
 	if v, ok := ex.params["sched_atomic_points"]; ok {
 		s.atomicPts = v != 0
 	}
@@ -148,12 +157,30 @@ func (s *scheduler) enabled(g *goroutine) bool {
 
 func (s *scheduler) othersEnabled() []*goroutine {
 	var r []*goroutine
-	for _, g := range s.gs {
+	n := len(s.gs)
+	// round-robin order starting after the current goroutine
+	for i := 1; i <= n; i++ {
+		g := s.gs[(s.cur.id+i)%n]
 		if g != s.cur && s.enabled(g) {
 			r = append(r, g)
 		}
 	}
 	return r
+}
+
+// pickBlocked chooses which goroutine runs when the current one cannot.
+func (s *scheduler) pickBlocked(n int, what string) int {
+	if !s.delayBounded {
+		return s.ex.chooseN(n, what)
+	}
+	if s.preempts >= s.maxPreempt {
+		return 0
+	}
+	k := s.ex.chooseN(n, what)
+	if k > 0 {
+		s.preempts++
+	}
+	return k
 }
 
 func (s *scheduler) armedTimers() []*timerObj {
@@ -290,7 +317,7 @@ func (s *scheduler) blockCurrent() {
 			if s.eagerTimers {
 				timers = s.armedTimers()
 			}
-			k := s.ex.chooseN(len(others)+len(timers), "schedule (current goroutine blocked)")
+			k := s.pickBlocked(len(others)+len(timers), "schedule (current goroutine blocked)")
 			if k < len(others) {
 				s.switchTo(others[k])
 				if s.cur.state == gBlockedPred && !s.cur.pred() {
@@ -338,7 +365,7 @@ func (s *scheduler) exitCurrent() {
 	for {
 		others := s.othersEnabled()
 		if len(others) > 0 {
-			next := others[s.ex.chooseN(len(others), "schedule (goroutine exited)")]
+			next := others[s.pickBlocked(len(others), "schedule (goroutine exited)")]
 			g.depth = 0
 			s.cur = next
 			s.ex.curG = next
